@@ -112,11 +112,28 @@ def scenario(cfg, n_resume, seed2, second_gen=False):
             hk.wrap(SamplerCore, "save_sampler_state", after=after)
             attach.iteration_budget(hk, 400)
             try:
-                s.run(n_total=c["n_total"], progress=runs.prog(c), save_every=1)
+                if c.get("manual"):
+                    # the writer is a hand-written loop over the public sample(save_every, t0): a checkpoint is due at iteration i iff
+                    # (i - t0) % save_every == 0 and i != t0
+                    # (sample() needs an initialised sampler: a short run() without checkpoints comes first, as in the library's own tests)
+                    se_m, t0_m, n_m = c["manual"]
+                    s.run(n_total=c["N"], progress=runs.prog(c))
+                    base_it = int(s.state.get_current("iter"))
+                    for _ in range(n_m):
+                        s.sample(save_every=se_m, t0=base_it + t0_m)
+                else:
+                    s.run(n_total=c["n_total"], progress=runs.prog(c), save_every=1)
             except Exception as e:
                 key = "save-raises-with-pool" if c.get("pool") is not None else "run-with-save-every-raises"
                 out["bad"].append((key, f"run(save_every=1) raised {type(e).__name__}: {e} (pool={c.get('pool')!r})"))
                 return out
+        if c.get("manual"):
+            se_m, t0_m, n_m = c["manual"]
+            # sample() saves the state it finds on entry: call j (1-based) sees iteration base_it + j - 1
+            due = [base_it + i for i in range(0, n_m) if (i - t0_m) % se_m == 0 and i != t0_m]
+            got = [int(sv["it"]) for sv in saves]
+            if got != due:
+                out["bad"].append(("manual-loop-save-schedule", f"sample(save_every={se_m}, t0={t0_m}) called {n_m} times wrote checkpoints at iterations {got}, due at {due}"))
         H = runs.history(s)
         out["saves"] = len(saves)
         if not saves:
@@ -681,6 +698,9 @@ def run():
     idxs = [0, 1, 2, 3, 5, 11, 6] if ck.quick else list(range(ncfg))     # quick: incl. the integer-pool and cluster_every=2 configurations
     tasks = [("tvf.checks.c08:scenario", dict(cfg=make_cfg(i, ck.subseed("cfg", i)), n_resume=ck.pick(2, 6), seed2=ck.subseed("res", i)), None)
              for i in idxs]
+    # checkpoints written from a hand-written loop over sample(save_every, t0)
+    for j, man in enumerate(ck.pick([(1, 0, 6), (2, 1, 9)], [(1, 0, 6), (2, 1, 9), (3, 0, 10), (2, 0, 8), (4, 2, 12), (1, 3, 7)])):
+        tasks.append(("tvf.checks.c08:scenario", dict(cfg=dict(make_cfg([0, 6, 2, 1, 4, 9][j], ck.subseed("man", j)), manual=man), n_resume=2, seed2=ck.subseed("manr", j)), None))
     # blobs that are not floats (int64 labels above 2^53, string labels in an object array)
     for j, md in enumerate(ck.pick(["blobsI", "blobsS"], ["blobsI", "blobsS", "blobsI", "blobsS"])):
         tasks.append(("tvf.checks.c08:scenario", dict(cfg=dict(make_cfg([2, 5, 14, 6][j], ck.subseed("bt", j)), mode=md, pool=None), n_resume=2, seed2=ck.subseed("btr", j)), None))
@@ -710,6 +730,8 @@ def run():
             ck.event("restore / resume scenarios with particle coordinates in float32 or extended precision")
         if cfg.get("mode") in ("blobsI", "blobsS"):
             ck.event("restore / resume scenarios with integer / string blobs")
+        if cfg.get("manual"):
+            ck.event("restore / resume scenarios whose writer is a hand-written sample(save_every, t0) loop")
         if cfg.get("pathlib"):
             ck.event("restore / resume scenarios with output_dir / state paths given as pathlib.Path")
         if cfg.get("default_dir"):
